@@ -13,6 +13,7 @@ import copy
 from ..core import AnalysisError
 from ..deriv import Spec, Tag, Explorer, _short
 from ..pyabs import W, lift, deep_eq, PyRaise, Raised, LexUnknown, NonUniform
+from ..objabs import ShapeMismatch
 from .common import punct, numbers, to_int, Matcher, matches, show
 from .clauses import Holds
 from .table import InOrder
@@ -289,6 +290,11 @@ class AlterOracle:
                 else:
                     ex.add("O-final", f"alter: `{kind}` on target written `{refkey}`: {type(pr.exc).__name__} in the output layer",
                            f"formatting the script raises {type(pr.exc).__name__}: {pr.exc}", wit)
+                continue
+            except ShapeMismatch as sm:
+                ex.add("O-uniform", f"alter: `{kind}` on `{refkey}`: the output layer treats the names of one class differently",
+                       f"{sm}; the fragment writes every name of a class the same way in the CREATE and in the statement, so they must be "
+                       "matched (or not matched) alike", wit)
                 continue
             except (LexUnknown, NonUniform) as e:
                 raise AnalysisError(f"alter fragment: output layer outside the interpreted subset on `{wit}`: {e}")
